@@ -557,6 +557,101 @@ def oracle_json(las):
     return None
 
 
+# the item-level .json properties (HeaderItem.json, CurveItem.json, SectionItems.json): the statement's "to_json()/json
+# always produce text a strict JSON parser accepts ... NaN as null" read for every object that has a .json.  Switched
+# on after lasio commit 766a330 (item .json routed through _json_value); before it a NaN value / sample was emitted as
+# the bare token NaN and a numpy integer value raised TypeError.
+ITEM_JSON = True
+
+
+def json_value_ok(v, got):
+    """does the JSON member `got` carry the header value / sample v (numbers as numbers, text as text, a non-finite
+    float as null)?  None = the statement does not speak about this type"""
+    if v is None:
+        return got is None
+    if isinstance(v, str):
+        return isinstance(got, str) and got == str(v)
+    if isinstance(v, (bool, np.bool_)):
+        return None
+    if isinstance(v, (int, np.integer)):
+        return isinstance(got, int) and not isinstance(got, bool) and got == int(v)
+    if isinstance(v, (float, np.floating)):
+        if float(v) != float(v) or float(v) in (math.inf, -math.inf):
+            return got is None
+        return isinstance(got, float) and same_float(got, v)
+    return None
+
+
+def oracle_item_json(it, where):
+    """one item's .json: strict JSON, an object with _type / mnemonic (the original) / unit / value / descr and, for a
+    curve, data -> None or the text of the first failure"""
+    from lasio import CurveItem
+    try:
+        text = it.json
+    except Exception as e:
+        return "%s.json raised %r" % (where, e)
+    if not isinstance(text, str):
+        return "%s.json is a %s, not text" % (where, type(text).__name__)
+    try:
+        doc = strict_loads(text)
+    except Exception as e:
+        return "%s.json is not strict JSON: %s (text %s)" % (where, e, text[:200])
+    if not isinstance(doc, dict):
+        return "%s.json is not a JSON object: %s" % (where, text[:120])
+    want = {"_type": type(it).__name__, "mnemonic": it.original_mnemonic, "unit": it.unit, "descr": it.descr}
+    for k, w in want.items():
+        if k not in doc or doc[k] != w or type(doc[k]) is not type(w):
+            return "%s.json: member %r is %r, the item has %r" % (where, k, doc.get(k), w)
+    if "value" not in doc:
+        return "%s.json lacks the member 'value'" % where
+    if json_value_ok(it.value, doc["value"]) is False:
+        return "%s.json: value %r (%s) appears as %r" % (where, it.value, type(it.value).__name__, doc["value"])
+    if isinstance(it, CurveItem):
+        col = doc.get("data")
+        xs = list(np.asarray(it.data))
+        if np.asarray(it.data).ndim == 1:
+            if not isinstance(col, list) or len(col) != len(xs):
+                return "%s.json: data has %s members for %d samples" % (where, len(col) if isinstance(col, list) else col, len(xs))
+            for i, (x, g) in enumerate(zip(xs, col)):
+                if json_value_ok(x, g) is False:
+                    return "%s.json: sample [%d] = %r appears as %r" % (where, i, x, g)
+    elif "data" in doc:
+        return "%s.json: a HeaderItem carries a data member" % where
+    return None
+
+
+def oracle_items_json(las):
+    """every item of every SectionItems of the LASFile, and each section's own .json (a JSON list whose members are
+    the items' .json texts) -> None or the first failure"""
+    for name, sect in las.sections.items():
+        if not hasattr(sect, "dictview"):
+            continue
+        items = list(list.__iter__(sect))
+        for j, it in enumerate(items):
+            bad = oracle_item_json(it, "%s[%d] (%s)" % (name, j, it.mnemonic))
+            if bad:
+                return bad
+        try:
+            text = sect.json
+        except Exception as e:
+            return "section %s .json raised %r" % (name, e)
+        try:
+            doc = strict_loads(text)
+        except Exception as e:
+            return "section %s .json is not strict JSON: %s (text %s)" % (name, e, text[:200])
+        if not isinstance(doc, list) or len(doc) != len(items):
+            return "section %s .json is not a JSON list with one member per item: %s" % (name, text[:120])
+        for j, (member, it) in enumerate(zip(doc, items)):
+            # lasio nests the item texts as JSON strings; an object per item would carry the same content
+            try:
+                inner = strict_loads(member) if isinstance(member, str) else member
+            except Exception as e:
+                return "section %s .json: member %d is not strict JSON: %s (text %s)" % (name, j, e, str(member)[:200])
+            if inner != strict_loads(it.json):
+                return "section %s .json: member %d differs from that item's .json" % (name, j)
+    return None
+
+
 def expected_csv_header(las, opts):
     mn, un, loc = opts.get("mnemonics", True), opts.get("units", True), opts.get("units_loc", "line")
     names = [c.original_mnemonic for c in las.curves] if mn is True else ([] if mn is False else list(mn))
@@ -882,7 +977,10 @@ def evaluate(payload):
     enc = enc_las(las, view)
     inp = FS.join([view, opts_field(view, opts)] + enc)
     if view == "json":
-        return inp, obs_json(las), oracle_json(las)
+        bad = oracle_json(las)
+        if bad is None and ITEM_JSON:
+            bad = oracle_items_json(las)
+        return inp, obs_json(las), bad
     if view == "csv":
         return inp, obs_csv(las, opts), oracle_csv(las, opts)
     if view == "xlsx":
